@@ -8,7 +8,7 @@ THEOREMS = ['C07_db_refines_list_spec', 'C07_db_refines_list_spec_from_init', 'C
             'C07_match_binds_pattern', 'C07_ids_invariant', 'C07_nothing_raises', 'C07_compiled_updates_are_list_operations',
             'C07_compiled_refines_list_spec', 'C07_compiled_run_is_cursor_history',
             'C07_open_history_is_history', 'C07_open_assert_stores_value', 'C07_open_bindings_are_the_answer',
-            'C07_open_no_lost_update']
+            'C07_open_no_lost_update', 'C07_retract_answer_is_stored', 'C07_clear_then_resume']
 RULE = ('histories of 3-30 operations (asserta/assertz through the builtin, through a goal held in a bound variable, '
         'through a compiled clause, and through YP.assert_fact; retract taken for k answers then closed or run to '
         'exhaustion; retractall; queries through YP.query, a compiled clause and call/1; clear) over 1-3 predicates of '
